@@ -314,7 +314,7 @@ def run_once(d, sc, plan, exdev, ref):
                 # C17 states no liveness requirement: recorded in the evidence, not alarmed
                 retry = "failed: %s" % retry
         return {"trace": sim.trace, "fired": sim.fired, "outcome": outcome, "leaked": leaked,
-                "restart": restart, "retry": retry}
+                "restart": restart, "retry": retry, "short_writes": getattr(sim, "short_writes", 0)}
     finally:
         sb.close()
 
@@ -347,6 +347,7 @@ def run_scenario(seed, tier):
             stats["leaked_temp_files"] += 1
         if r.get("retry") and r["retry"] != "ok":
             stats["retry_failed"] = stats.get("retry_failed", 0) + 1
+        stats["short_writes"] = stats.get("short_writes", 0) + r.get("short_writes", 0)
         for idx, label, act in r["fired"]:
             key = "%s@%s%s" % (act, label, "+exdev" if exdev else "")
             stats["fired"][key] = stats["fired"].get(key, 0) + 1
@@ -434,6 +435,7 @@ def run(tier, seed):
             for k in ("executions", "instants", "leaked_temp_files"):
                 agg[k] += st[k]
             agg["retry_failed"] = agg.get("retry_failed", 0) + st.get("retry_failed", 0)
+            agg["short_writes"] = agg.get("short_writes", 0) + st.get("short_writes", 0)
             for k in ("fired", "outcomes", "labels"):
                 for kk, vv in st[k].items():
                     agg[k][kk] = agg[k].get(kk, 0) + vv
@@ -467,6 +469,17 @@ def run(tier, seed):
     wall_s = time.time() - t0
     if agg["executions"] == 0:
         herrs.append("no executions")
+    dropped = agg.get("not_run_wall_cap", 0)
+    if agg["scenarios"] < max(check.NPROC, len(seeds) // 10):
+        # a run that covered next to nothing is not a pass (the machine was too loaded)
+        herrs.append("only %d of %d scenarios ran within the wall cap of %ds" % (agg["scenarios"], len(seeds), wall))
+    if agg["executions"]:
+        for kind in ("error", "torn", "crash"):
+            if not any(k.startswith(kind + "@") for k in agg["fired"]):
+                herrs.append("fault kind %r never fired" % kind)
+        for fmt in ("json", "xml", "rdf", "provn"):
+            if agg["scenarios"] >= 200 and not agg["formats"].get(fmt):
+                herrs.append("no scenario for format %r" % fmt)
     nfired = sum(agg["fired"].values())
     if nfired == 0:
         herrs.append("no fault ever fired")
@@ -479,6 +492,7 @@ def run(tier, seed):
             "samples": samples or [{"note": "none"}],
             "scenarios": agg["scenarios"],
             "scenarios_not_run_because_of_the_wall_cap": agg.get("not_run_wall_cap", 0),
+            "short_writes_on_raw_files": agg.get("short_writes", 0),  # 0 unless the code opens a file with buffering=0
             "instants_in_fault_free_traces": agg["instants"],
             "faults_fired_by_kind_and_instant": agg["fired"],
             "faults_fired_total": nfired,
@@ -513,6 +527,8 @@ def run(tier, seed):
         print("  detail=%s" % json.dumps({k: d[k] for k in d if k not in ("scenario",)}, default=repr)[:1200])
     for he in herrs[:5]:
         print("HARNESS-ERROR: %s" % he[:3000])
+    if dropped:
+        print("C17 %s: %d of %d scenarios were not run (wall cap %ds)" % (tier, dropped, len(seeds), wall))
     print("C17 %s: scenarios=%d executions=%d faults_fired=%d distinct=%d violations=%d known=%d wall=%.1fs" % (
         tier, agg["scenarios"], agg["executions"], nfired, len(distinct), len(reported), len(attributed), wall_s))
     if reported:
